@@ -309,6 +309,202 @@ theorem C24_setState_forward (c : CatCfg) (ht : c.TransGood) (rs rs' : Catalog) 
       · simp only [hst, if_false] at this ⊢; exact this
     · rw [if_neg hv] at h; cases h
 
+/-- A state change never touches ranges: partition and coverage are unchanged. -/
+theorem C24_setState (c : CatCfg) (ht : c.TransGood) (rs rs' : Catalog) (hI : CInv rs) (id st : Nat)
+    (h : setState c rs id st = some rs') :
+    CInv rs' ∧ (∀ k, covers rs' k ↔ covers rs k) := by
+  unfold setState at h
+  by_cases h0 : id = 0
+  · rw [if_pos h0] at h; cases h
+  rw [if_neg h0] at h
+  cases hf : find rs id with
+  | none => rw [hf] at h; cases h
+  | some m =>
+    rw [hf] at h
+    simp only at h
+    obtain ⟨hm, hid⟩ := find_some hf
+    unfold update at h
+    simp only at h
+    rw [if_neg (by rw [hid]; exact h0)] at h
+    by_cases hv : validTrans c (curState rs m.id) (normState { m with state := st }).state = true
+    · rw [if_pos hv] at h
+      simp only [Option.some.injEq] at h
+      subst h
+      have hfields : (normState { m with state := st }).id = m.id ∧
+          (normState { m with state := st }).start = m.start ∧
+          (normState { m with state := st }).end_ = m.end_ ∧
+          (1 ≤ (normState { m with state := st }).state) := by
+        unfold normState
+        by_cases hs : ({ m with state := st } : Meta).state = 0
+        · rw [if_pos hs]; simp
+        · rw [if_neg hs]; simp only at hs; exact ⟨rfl, rfl, rfl, by simp only; omega⟩
+      obtain ⟨g1, g2, g3, g4⟩ := hfields
+      generalize normState { m with state := st } = m' at g1 g2 g3 g4 hv
+      refine ⟨?_, ?_⟩
+      · refine ⟨?_, ?_, ?_, ?_, ?_⟩
+        · unfold put
+          apply List.Pairwise.cons
+          · intro y hy
+            rw [List.mem_filter] at hy
+            exact fun e => (by simpa using hy.2 : y.id ≠ m'.id) e.symm
+          · exact List.Pairwise.filter _ hI.nodup
+        · intro a ha
+          rcases mem_put.mp ha with e | e
+          · subst e; exact proper_congr g2 g3 (hI.proper m hm)
+          · exact hI.proper a e.1
+        · intro a ha b hb hab
+          rcases mem_put.mp ha with e1 | e1 <;> rcases mem_put.mp hb with e2 | e2
+          · subst e1; subst e2; exact absurd rfl hab
+          · subst e1
+            rw [overlapG_congr_left b g2 g3]
+            exact hI.disj m hm b e2.1 (by rw [← g1]; exact fun e => e2.2 e.symm)
+          · subst e2
+            rw [overlapG_comm, overlapG_congr_left a g2 g3]
+            exact hI.disj m hm a e1.1 (by rw [← g1]; exact fun e => e1.2 e.symm)
+          · exact hI.disj a e1.1 b e2.1 hab
+        · intro a ha
+          rcases mem_put.mp ha with e | e
+          · subst e
+            refine ⟨g4, ?_⟩
+            have hcur : curState rs m.id = m.state := curState_of_mem hI.nodup hm
+            rw [hcur, validTrans_iff c ht] at hv
+            have hms := hI.states m hm
+            omega
+          · exact hI.states a e.1
+        · intro a ha
+          rcases mem_put.mp ha with e | e
+          · subst e; rw [g1]; exact hI.nonzero m hm
+          · exact hI.nonzero a e.1
+      · intro k
+        rw [covers_put]
+        unfold covers
+        constructor
+        · rintro (hk | ⟨r, hr, _, hk⟩)
+          · exact ⟨m, hm, (contains_congr k g2 g3).mp hk⟩
+          · exact ⟨r, hr, hk⟩
+        · rintro ⟨r, hr, hk⟩
+          by_cases hrm : r.id = m.id
+          · have : r = m := uniq_of_nodup hI.nodup r hr m hm hrm
+            subst this
+            exact Or.inl ((contains_congr k g2 g3).mpr hk)
+          · exact Or.inr ⟨r, hr, by rw [g1]; exact hrm, hk⟩
+    · rw [if_neg hv] at h; cases h
+
+/-- what `SplitRegion` trusts its caller on, for one operation against the current catalog -/
+def WFOp (rs : Catalog) : COp → Prop
+  | .split p ch => ∀ pm, find rs p = some pm → (ch.end_ = pm.end_ ∧ ∀ m ∈ rs, m.id ≠ ch.id)
+  | _ => True
+
+def WFSeq (c : CatCfg) : Catalog → List COp → Prop
+  | _, [] => True
+  | rs, op :: ops => WFOp rs op ∧ WFSeq c (capply c rs op) ops
+
+def NoRemove : COp → Prop
+  | .remove _ => False
+  | _ => True
+
+theorem split_some_find (c : CatCfg) (rs rs' : Catalog) (p : Nat) (ch : Meta)
+    (h : split c rs p ch = some rs') : ∃ pm, find rs p = some pm := by
+  unfold split at h
+  by_cases hz : p = 0 ∨ ch.id = 0 ∨ ch.start = []
+  · rw [if_pos hz] at h; cases h
+  rw [if_neg hz] at h
+  cases hf : find rs p with
+  | none => rw [hf] at h; cases h
+  | some pm => exact ⟨pm, rfl⟩
+
+theorem capply_split (c : CatCfg) (rs : Catalog) (p : Nat) (ch : Meta) :
+    capply c rs (.split p ch) = (split c rs p ch).getD rs := by
+  show (ofOpt rs (split c rs p ch)).1 = _
+  cases split c rs p ch <;> rfl
+
+theorem capply_remove (c : CatCfg) (rs : Catalog) (id : Nat) :
+    capply c rs (.remove id) = (removeRegion c rs id).getD rs := by
+  show (ofOpt rs (removeRegion c rs id)).1 = _
+  cases removeRegion c rs id <;> rfl
+
+theorem capply_setState (c : CatCfg) (rs : Catalog) (id st : Nat) :
+    capply c rs (.setState id st) = (setState c rs id st).getD rs := by
+  show (ofOpt rs (setState c rs id st)).1 = _
+  cases setState c rs id st <;> rfl
+
+theorem capply_merge (c : CatCfg) (rs : Catalog) (t s : Nat) :
+    capply c rs (.merge t s) = (merge c rs t s).1 := rfl
+
+theorem capply_spec (c : CatCfg) (hc : c.Good) (rs : Catalog) (hI : CInv rs) (op : COp) (hw : WFOp rs op) :
+    CInv (capply c rs op) ∧ (NoRemove op → ∀ k, covers (capply c rs op) k ↔ covers rs k) := by
+  obtain ⟨hs, hm, ht⟩ := hc
+  cases op with
+  | split p ch =>
+    rw [capply_split]
+    cases hsp : split c rs p ch with
+    | none => exact ⟨hI, fun _ _ => Iff.rfl⟩
+    | some rs' =>
+      simp only [Option.getD_some]
+      obtain ⟨pm, hpm⟩ := split_some_find c rs rs' p ch hsp
+      obtain ⟨hend, hfresh⟩ := hw pm hpm
+      obtain ⟨a, b, _⟩ := C24_split c ⟨hs, ht⟩ rs rs' hI p ch pm hsp hpm hfresh hend
+      exact ⟨a, fun _ => b⟩
+  | merge t s =>
+    rw [capply_merge]
+    obtain ⟨a, b, _⟩ := C24_merge c ⟨hm, ht⟩ rs hI t s
+    exact ⟨a, fun _ => b⟩
+  | remove id =>
+    rw [capply_remove]
+    refine ⟨?_, fun h => absurd h (by simp [NoRemove])⟩
+    cases hr : removeRegion c rs id with
+    | none => exact hI
+    | some rs' =>
+      -- the region exists (otherwise removeRegion fails)
+      have : ∃ s ∈ rs, s.id = id := by
+        unfold removeRegion at hr
+        by_cases h0 : id = 0
+        · rw [if_pos h0] at hr; cases hr
+        rw [if_neg h0] at hr
+        cases hf : find rs id with
+        | none => rw [hf] at hr; cases hr
+        | some s => exact ⟨s, (find_some hf).1, (find_some hf).2⟩
+      obtain ⟨s, hsm, hsid⟩ := this
+      obtain ⟨rs2, h1, h2, _⟩ := removeRegion_spec c ht hI hsm
+      rw [hsid, hr] at h1
+      cases h1
+      simpa using h2
+  | setState id st =>
+    rw [capply_setState]
+    cases hst : setState c rs id st with
+    | none => exact ⟨hI, fun _ _ => Iff.rfl⟩
+    | some rs' =>
+      simp only [Option.getD_some]
+      obtain ⟨a, b⟩ := C24_setState c ht rs rs' hI id st hst
+      exact ⟨a, fun _ => b⟩
+
+/-- **Partition under every history.**  From any partition, after any sequence of splits,
+merges, removals and state changes (splits well-formed as described above), the live regions
+are pairwise disjoint with unique ids and proper ranges; and as long as no stand-alone removal
+occurs they cover exactly the key space they covered at the start. -/
+theorem C24_partition (c : CatCfg) (hc : c.Good) (ops : List COp) (rs : Catalog) (hI : CInv rs)
+    (hwf : WFSeq c rs ops) :
+    CInv (ops.foldl (capply c) rs) ∧
+    ((∀ op ∈ ops, NoRemove op) → ∀ k, covers (ops.foldl (capply c) rs) k ↔ covers rs k) := by
+  induction ops generalizing rs with
+  | nil => exact ⟨hI, fun _ _ => Iff.rfl⟩
+  | cons op ops ih =>
+    obtain ⟨hw, hrest⟩ := hwf
+    obtain ⟨h1, h2⟩ := capply_spec c hc rs hI op hw
+    obtain ⟨h3, h4⟩ := ih (capply c rs op) h1 hrest
+    refine ⟨h3, ?_⟩
+    intro hnr k
+    rw [List.foldl_cons, h4 (fun o ho => hnr o (List.mem_cons_of_mem _ ho)) k]
+    exact h2 (hnr op List.mem_cons_self) k
+
+/-- the invariant is what the statement says: no key lies in two live regions -/
+theorem C24_disjoint_semantic (rs : Catalog) (hI : CInv rs) (a b : Meta) (ha : a ∈ rs) (hb : b ∈ rs)
+    (hne : a ≠ b) : ¬ ∃ k, contains a k ∧ contains b k := by
+  intro hex
+  have hid : a.id ≠ b.id := fun e => hne (uniq_of_nodup hI.nodup a ha b hb e)
+  have := (overlapG_iff a b (hI.proper a ha) (hI.proper b hb)).mpr hex
+  rw [hI.disj a ha b hb hid] at this; cases this
+
 /-! ### as-is: `handleMergeCommand` only ever extends the end key (finding `merge-extend-end-only`) -/
 
 def wAsis : CatCfg := { CatCfg.good with mergeRule := .extendEndOnly }
